@@ -120,7 +120,7 @@ def r_maps(ctx):
         if kind == 'RET' and 'WitnessReassigned' in err_variants(ret):
             dup = any((is_call(w, 'contains_key') and l != '0') or (is_call(w, 'entry') and l == 'Occupied') for w, l in p.conds)
     ctx.ob(rid, 'module:duplicate', dup, 'map.contains_key(name) ⇒ WitnessReassigned before insertion', fn.where())
-    if ctx.tier == 'thorough':
+    if True:
         fs = ctx.facts('serde')
         vis = [f for f in fs.find(r'Visitor.*::visit_map$')]
         ctx.floor(rid, 'JSON map visitors (serde configuration)', len(vis), 1)
@@ -187,6 +187,7 @@ def check(ctx):
     c16.r_name_tables(ctx, 'R15.6')
     c16.r_number_tokens(ctx, 'R15.7')
     c04.group_rule(ctx, 'R15.9', r"^(<(&value::Value|&types::ResolvedType|&types::AliasedType) as miniscript::iter::TreeLike>::as_node|ast::analyze_named_module::\{closure#\d+\})$", 'children of value and type nodes in the order the printers visit them; module item selection', 3)
+    c04.group_rule(ctx, 'R15.12', r'^(<?serde::.*|witness::(Arguments|WitnessValues)::as_inner)$', 'JSON visitors and serializers of witness / argument maps and values (serde feature): every path', 12, config='serde')
     c04.group_rule(ctx, 'R15.11', r'^(num::(NonZero)?Pow2Usize::new|<num::\w+ as (parse::PestParse>::parse|std::str::FromStr>::from_str)(::\{closure#\d+\})*|<types::(UIntType|BuiltinAlias|AliasedType) as parse::PestParse>::parse)$', 'parsers of the printed numbers, bounds and type names', 5)
     c04.group_rule(ctx, 'R15.10', c11.LIT.pattern, 'literal converters: what the printed integers and byte strings are parsed back with', 8)
     c04.r_reviewed_grammar(ctx, 'R15.8', roots={'program', 'ty', 'expression'})
